@@ -3,8 +3,11 @@ GUARDS = {"BoundHeapInsideArena", "ExclusiveStaysPrivate", "FullGivesNull", "Man
           "LiveAccessible", "DestructiveAvoidsLive", "Invariant.Inv"}
 def run(tier, seed):
     envs = [None, {"MIMALLOC_PURGE_DELAY": "0"}, {"MIMALLOC_ARENA_RESERVE": "65536"}, {"MIMALLOC_DISALLOW_ARENA_ALLOC": "1"}]
+    # targeted histories: the only heap of an exclusive arena is deleted (its pages are abandoned, the arena stays private); an arena of exactly 64 blocks filled to its end
+    extra = [{"_args": ["--scenario", "excldel"], "_tag": "excldel"}, {"MIMALLOC_ABANDONED_RECLAIM_ON_FREE": "1", "_args": ["--scenario", "excldel"], "_tag": "excldel.rof", "_builds": ["rel", "dbg"]},
+             {"_args": ["--scenario", "arena64"], "_tag": "arena64", "_builds": ["rel", "dbg"]}]
     V, cov = apifam.run_api("C15", tier, seed, profiles=["c15"], builds=["rel", "dbg", "sec"], own_guards=GUARDS, crash_decisive=True,
-                          gen=(0, 0), ops=(2500, 6000), maxlive=(250, 600), shim=True, envs=envs, extra_args=["--clock", "30"], finish=False)
+                          gen=(0, 0), ops=(2500, 6000), maxlive=(250, 600), shim=True, envs=envs, extra_args=["--clock", "30"], finish=False, extra_runs=extra)
     # adoption of abandoned memory: segments left behind in the exclusive arena / in ordinary memory are visited again and again by a
     # thread whose heap does not fit them; shared-arena program with bound heaps on several threads
     rof = {"MIMALLOC_ABANDONED_RECLAIM_ON_FREE": "1"}
